@@ -114,17 +114,33 @@ fn check_decode(bytes: &[u8], rep: &mut Report) {
         }
     }
     for frag in [false, true] {
-        let (res, consumed) = if frag {
-            let mut b = Fragmented {
-                data: bytes.to_vec(),
-                pos: 0,
-            };
-            let r = VarInt::decode(&mut b);
-            (r, b.pos)
-        } else {
-            let mut b = bytes;
-            let r = VarInt::decode(&mut b);
-            (r, bytes.len() - b.len())
+        // only h3's decoder runs inside the catcher: a panic there (wherever it is raised - h3 reads
+        // through the bytes crate) is the decoder failing to report a truncation or a value as such
+        let attempt = crate::panics::catch(|| {
+            if frag {
+                let mut b = Fragmented {
+                    data: bytes.to_vec(),
+                    pos: 0,
+                };
+                let r = VarInt::decode(&mut b);
+                (r, b.pos)
+            } else {
+                let mut b = bytes;
+                let r = VarInt::decode(&mut b);
+                (r, bytes.len() - b.len())
+            }
+        });
+        let (res, consumed) = match attempt {
+            Ok(x) => x,
+            Err(p) => {
+                viol(
+                    rep,
+                    if expect.is_ok() { "decode-panics[complete encoding]" } else { "decode-panics[truncated encoding]" },
+                    format!("VarInt::decode panicked on {}: {} at {}", hex(bytes), p.msg, p.loc),
+                    json!({"bytes": hex(bytes), "fragmented": frag}),
+                );
+                continue;
+            }
         };
         match (&expect, res) {
             (Ok((v, n)), Ok(got)) => {
@@ -165,7 +181,13 @@ fn check_decode(bytes: &[u8], rep: &mut Report) {
     // get_var helper must agree
     {
         let mut b = bytes;
-        let r = b.get_var();
+        let r = match crate::panics::catch(|| b.get_var()) {
+            Ok(r) => r,
+            Err(p) => {
+                viol(rep, "get_var-panics", format!("BufExt::get_var panicked on {}: {} at {}", hex(bytes), p.msg, p.loc), json!({"bytes": hex(bytes)}));
+                return;
+            }
+        };
         match (&expect, r) {
             (Ok((v, _)), Ok(g)) if *v == g => {}
             (Err(_), Err(_)) => {}
